@@ -393,10 +393,16 @@ def _remove_invalid_ckpts(
   checkpoint_files: list[Any] = [
     pathlib.PurePath(c) for c in _allowempty_listdir(dir_path)
   ]
+  # Temporary names left behind by an interrupted save are not checkpoints:
+  # apply the same exclusions as `_all_checkpoints`, so that they are neither
+  # counted towards `keep` nor treated as newer / older checkpoints.
   checkpoint_files = [
     os.path.join(dir_path, c)
     for c in checkpoint_files
-    if c.match(f'{prefix}*') and not c.match(f'*{MP_ARRAY_POSTFIX}')
+    if c.match(f'{prefix}*')
+    and not c.match(f'{prefix}tmp')
+    and not c.match(f'*{MP_ARRAY_POSTFIX}')
+    and not c.match(f'*{ocp.utils.TMP_DIR_SUFFIX}*')
   ]
   checkpoint_files = natural_sort(checkpoint_files)
 
@@ -513,7 +519,9 @@ def _check_overwrite_error(
   checkpoint_files = [
     os.path.join(dir_path, c)
     for c in checkpoint_files
-    if c.match(f'{prefix}*') and not c.match(f'*{MP_ARRAY_POSTFIX}')
+    if c.match(f'{prefix}*')
+    and not c.match(f'*{MP_ARRAY_POSTFIX}')
+    and not c.match(f'*{ocp.utils.TMP_DIR_SUFFIX}*')
   ]
   if ckpt_path in checkpoint_files:
     raise errors.InvalidCheckpointError(ckpt_path, step)
